@@ -156,6 +156,21 @@ func rowSources(p *core.Program, v ssa.Value, seen map[ssa.Value]bool) []rowSrc 
 		return []rowSrc{{kind: srcParam, fn: fn, param: pi, val: v}}
 	case *ssa.UnOp:
 		if x.Op == token.MUL {
+			// a field of a per-request struct of this package (`w.row` of a rowWrite): union over
+			// everything the package ever stores into that field
+			if fa, isFa := x.X.(*ssa.FieldAddr); isFa {
+				if n := core.NamedOf(fa.X.Type()); n != nil && n.Obj().Pkg() != nil && n.Obj().Pkg().Path() == core.PkgBttest {
+					if loc := locationOf(fa); loc != "" {
+						var out []rowSrc
+						for _, st := range storesToLocation(p, core.PkgBttest, loc) {
+							out = append(out, rowSources(p, st.Val, seen)...)
+						}
+						if len(out) > 0 {
+							return out
+						}
+					}
+				}
+			}
 			// load of a multiply-assigned cell: union over all stores
 			if cell := core.CellOf(x.X); cell != nil {
 				var out []rowSrc
@@ -342,6 +357,36 @@ func R02R03() Rule {
 					why = append(why, fmt.Sprintf("parameter %d of %s (obligation carried by its callers)", s.param, core.FuncName(s.fn)))
 				case srcReader:
 					bad := false
+					if s.instr.Parent() != w.fn && core.Root(s.instr.Parent()) != core.Root(w.fn) {
+						// read in one helper, written in another (`beginRowWrite` … `commit`): the hold is
+						// uninterrupted iff no function that runs both ever releases and re-takes the lock
+						nRoots := 0
+						for _, root := range c.P.SrcFuncs(core.PkgBttest) {
+							if root.Parent() != nil {
+								continue
+							}
+							sc := c.P.ScopeSet(root, func(f *ssa.Function) bool { return core.PkgPathOf(f) != core.PkgBttest })
+							if !sc[core.Root(s.instr.Parent())] || !sc[core.Root(w.fn)] {
+								continue
+							}
+							nRoots++
+							if la.Breaks[root][tableLock] || len(epochEvents(la, root)) > 0 {
+								c.Bad("R02", construct, pos, "row read at %s (in %s) is written back here, and %s — which runs both — releases %s in between: the write can overwrite a concurrent update", c.P.Pos(s.instr.Pos()), core.FuncName(s.instr.Parent()), core.FuncName(root), tableLock)
+								bad = true
+								break
+							}
+						}
+						if nRoots == 0 && !bad {
+							c.Unknown("R02", construct, pos, "the row written here is read in %s, and no function running both was found", core.FuncName(s.instr.Parent()))
+							bad = true
+						}
+						if bad {
+							ok = false
+						} else {
+							why = append(why, fmt.Sprintf("read at %s in a helper; none of the %d functions running both releases %s", c.P.Pos(s.instr.Pos()), nRoots, tableLock))
+						}
+						continue
+					}
 					for _, e := range events {
 						if core.InstrReaches(s.instr, e) && core.InstrReaches(e, w.call.Instr) {
 							c.Bad("R02", construct, pos, "row read at %s is written back here, but %s is released in between at %s: the write can overwrite a concurrent update", c.P.Pos(s.instr.Pos()), tableLock, c.P.Pos(e.Pos()))
